@@ -19,6 +19,7 @@ structure TmplSt where
   tmpl : Option Template := none
   subsets : Array Subset := #[]
   invalid : Bool := false
+  hasDts : Bool := false                     -- a dataset object exists (C13: `ds.*` ops on `s`)
   dataFlag : Nat := 0                          -- `dts->data_flag` bits that reach Section 3 (observed, compressed)
 
 def parseBType : String → Option BType
@@ -78,9 +79,9 @@ def stepTemplate (st : TmplSt) (toks : List String) : Option (TmplSt × String) 
     match ed.toNat?, ds.mapM (·.toNat?) with
     | some ed, some ds =>
       match createTemplate T defaultFuel ed ds with
-      | .ok t => some ({ st with tmpl := some t, subsets := #[], invalid := false, dataFlag := 0 }, s!"ok {t.gabarit.length} {if t.hasDelayed then 1 else 0}")
-      | .error .null => some ({ st with tmpl := none, subsets := #[], dataFlag := 0 }, "fail")
-      | .error _ => some ({ st with tmpl := none, subsets := #[], dataFlag := 0 }, "diverge")
+      | .ok t => some ({ st with tmpl := some t, subsets := #[], invalid := false, dataFlag := 0, hasDts := false }, s!"ok {t.gabarit.length} {if t.hasDelayed then 1 else 0}")
+      | .error .null => some ({ st with tmpl := none, subsets := #[], dataFlag := 0, hasDts := false }, "fail")
+      | .error _ => some ({ st with tmpl := none, subsets := #[], dataFlag := 0, hasDts := false }, "diverge")
     | _, _ => some (st, "bad-op")
   | ["tm.gabarit"] =>
     match st.tmpl with
@@ -91,9 +92,9 @@ def stepTemplate (st : TmplSt) (toks : List String) : Option (TmplSt × String) 
     | none => some (st, "-1")
     | some t =>
       match createDatasubset T defaultFuel t with
-      | .ok (s, err) => some ({ st with subsets := st.subsets.push s, invalid := st.invalid || err }, s!"{st.subsets.size}")
-      | .error .abort => some (st, "abort")
-      | .error _ => some (st, "-1")
+      | .ok (s, err) => some ({ st with subsets := st.subsets.push s, invalid := st.invalid || err, hasDts := true }, s!"{st.subsets.size}")
+      | .error .abort => some ({ st with hasDts := true }, "abort")
+      | .error _ => some ({ st with hasDts := true }, "-1")
   | ["ss.list", p] =>
     match p.toNat? with
     | some p => match st.subsets[p]? with
